@@ -502,7 +502,20 @@ impl<'c, 'a, 'ast> Visit<'ast> for BodyVisitor<'c, 'a> {
                         self.cx.edit(ts, ts, format!("({}: ", r), 0, "R7-ret-name");
                         self.cx.edit(te, te, ")".to_string(), 0, "R7-ret-name");
                     }
-                    let (bs, _) = self.cx.f.range(c.body.span());
+                    let (bs, be) = self.cx.f.range(c.body.span());
+                    if let (Some(r), syn::ReturnType::Default) = (&cd.ret, &c.output) {
+                        // a closure without a declared return type: `//@ ret k: T` adds ` -> (k: T)`; a non-block body is braced
+                        // (`|x| e` -> `|x| -> (k: T) <spec> { e }`), which Verus' closure-contract syntax requires. Same closure.
+                        if !r.contains(':') {
+                            die("closure without return type: `//@ ret` needs `name: Type`");
+                        }
+                        let (_, oe) = self.cx.f.range(c.or2_token.span());
+                        self.cx.edit(oe, oe, format!(" -> ({})", r), 1, "R7-ret-name");
+                        if !matches!(&*c.body, Expr::Block(_)) {
+                            self.cx.edit(bs, bs, "{ ".to_string(), -1, "R7-closure-brace");
+                            self.cx.edit(be, be, " }".to_string(), -200001, "R7-closure-brace");
+                        }
+                    }
                     if !cd.spec.is_empty() {
                         self.cx.edit(bs, bs, format!("\n{}\n", cd.spec.join("\n")), 0, "R7-closure-spec");
                     }
@@ -536,15 +549,28 @@ impl<'c, 'a, 'ast> Visit<'ast> for BodyVisitor<'c, 'a> {
                     self.cx.edit(s, e, t, 0, "R17-bytestr");
                 }
             }
-            Expr::MethodCall(mc) if self.d.tryinto_as_tryfrom && mc.method == "try_into" && mc.args.is_empty() && mc.turbofish.is_none() => {
-                // R16 (opt-in): `e.try_into()` -> `core::convert::TryFrom::try_from(e)`. This is the body of core's only impl
-                // `impl<T, U: TryFrom<T>> TryInto<U> for T`; vstd can attach a contract to a concrete `TryFrom` impl but not to the
-                // blanket `TryInto` one. A modelling assumption on `core`, logged like every other rewrite.
+            Expr::Call(c) if !self.d.call_as.is_empty() && matches!(&*c.func, Expr::Path(_)) => {
+                // R16 (path-call form, opt-in `//@ call-as <callee> <fn>`): the callee path is replaced by a shim of the template whose
+                // external body is the original call (executed code unchanged) and whose contract is the assumed specification.
+                let (fs, fe) = self.cx.f.range(c.func.span());
+                let txt = norm_ws(&self.cx.f.text[fs..fe]).replace(' ', "");
+                if let Some((_, to)) = self.d.call_as.iter().find(|(from, _)| from.replace(' ', "") == txt) {
+                    self.cx.edit(fs, fe, to.clone(), 0, "R16-call-as");
+                }
+                for a in c.args.iter() {
+                    self.visit_expr(a);
+                }
+            }
+            Expr::MethodCall(mc) if self.d.tryinto_as.is_some() && mc.method == "try_into" && mc.args.is_empty() && mc.turbofish.is_none() => {
+                // R16 (opt-in `//@ try-into-as <fn>`): `e.try_into()` -> `<fn>(e)`. <fn> is a shim declared in the template whose external
+                // body is `s.try_into()` itself (so the executed code is unchanged) and whose contract is the ASSUMED specification of
+                // core's slice -> array conversion; Verus cannot attach a usable contract to the blanket `TryInto` impl directly.
+                let name = self.d.tryinto_as.clone().unwrap();
                 let (s, _) = self.cx.f.range(mc.span());
                 let (_, re) = self.cx.f.range(mc.receiver.span());
                 let (_, e2) = self.cx.f.range(mc.span());
                 let size = (e2 - s) as i32;
-                self.cx.edit(s, s, "core::convert::TryFrom::try_from(".to_string(), 100000 - size, "R16-try-into");
+                self.cx.edit(s, s, format!("{}(", name), 100000 - size, "R16-try-into");
                 self.cx.edit(re, e2, ")".to_string(), 0, "R16-try-into");
                 self.visit_expr(&mc.receiver);
             }
